@@ -220,25 +220,46 @@ Section Budget.
     exact (ensure_agrees val dflt d Hwf (S out) s out Ha out v Hv).
   Qed.
 
+  (* every failure of the history is granted and, right after its rollback, its failed job's output exists again *)
+  Fixpoint recovered_all (d : dag) (lim : option N) (m : mstate) (h : list failure) : Prop :=
+    match h with
+    | [] => True
+    | f :: r => match mstep d lim m f with
+                | Some m' => mst m' (failed f) <> None /\ recovered_all d lim m' r
+                | None => False
+                end
+    end.
+
+  Lemma recovered_all_holds d lim : well_formed d -> forall h m m',
+    mrun d lim m h = Some m' -> all_closed d lim m h = true -> recovered_all d lim m h.
+  Proof.
+    intros Hwf. induction h as [|f r IH]; intros m m' Hrun Hc; simpl; [exact I|].
+    simpl in Hrun, Hc. apply andb_true_iff in Hc. destruct Hc as [Hcf Hcr].
+    destruct (mstep d lim m f) as [m1|] eqn:E; [|discriminate].
+    split; [eapply mstep_recovers; eassumption|]. eapply IH; eassumption.
+  Qed.
+
   (* LIVENESS WITH THE BUDGET.  From any state that agrees with the failure-free run (e.g. the empty one, or any prefix
-     of the run), for every history of failures -- any jobs, any losses, any closed rollback sets, including rollbacks
-     caused by consumers -- in which each job's first execution plus the re-executions demanded of it stay within the
-     limit: every rollback is granted (the run is never aborted), versions are exactly 1 + demand, every granted rollback
-     makes its failed job's output exist again, the store still agrees with the failure-free run, and finishing the
-     remaining work without further failures yields exactly the failure-free output. *)
+     of the run), for every history of failures -- any jobs, any losses, including rollbacks caused by consumers -- whose
+     rollback sets are CLOSED (each contains its failed job, and every input of a member is available or an earlier
+     member; checked against the evolving store) and in which each job's first execution plus the re-executions demanded
+     of it stay within the limit: every rollback is granted (the run is never aborted), each granted rollback makes its
+     failed job's output exist again (so the run can go on from there), versions are exactly 1 + demand, and the store
+     still agrees with the failure-free run (every value that exists is the failure-free one). *)
   Theorem completes_within_budget d L h s0 :
     well_formed d -> agrees val dflt d s0 ->
+    all_closed d (Some L) (m0 s0) h = true ->
     (forall j, (1 + demand h j <= L)%N) ->
     exists m', mrun d (Some L) (m0 s0) h = Some m' /\
+               recovered_all d (Some L) (m0 s0) h /\
                (forall j, mver m' j = (1 + demand h j)%N) /\
-               agrees val dflt d (mst m') /\
-               forall out, out < length d -> ensure d (S out) (mst m') out out = failure_free d out.
+               agrees val dflt d (mst m').
   Proof.
-    intros Hwf Ha Hb.
+    intros Hwf Ha Hc Hb.
     destruct (mrun_granted d L h (m0 s0) Hb) as (m' & Hrun & Hver).
-    exists m'. split; [assumption|]. split; [exact Hver|].
-    pose proof (mrun_agrees d (Some L) Hwf h (m0 s0) m' Hrun Ha) as Ha'.
-    split; [assumption|]. intros out Hout. apply ensure_completes_from; assumption.
+    exists m'. split; [assumption|].
+    split; [eapply recovered_all_holds; eassumption|]. split; [exact Hver|].
+    exact (mrun_agrees d (Some L) Hwf h (m0 s0) m' Hrun Ha).
   Qed.
 
   (* THE BOUNDARY.  Conversely a history is granted only if the budget holds for every job it ever rolls back: the
